@@ -145,6 +145,8 @@ def legs(tier):
     return [
         Leg("corpus", evaluate, "committed regression inputs (cited instances)", corpus=common.load_corpus(PROP), valid=valid, shards=2),
         Leg("random", evaluate, rule, strategy=random_cases(), n_quick=3500, n_thorough=70000, valid=valid, floor=0.3),
+        Leg("large-inputs", evaluate, "hypothesis: the eleven cheap heuristics on 40-303 items (partitioners with 2-40 bins), six presentations; same oracle and rule",
+            strategy=cases.large_heuristic_cases(["list"]), n_quick=500, n_thorough=10000, valid=cases.valid_large_case, floor=0.3),
         Leg("ties", evaluate, "hypothesis: inputs drawn from 2-3 distinct values (many ties); same oracle and rule",
             strategy=tie_cases(), n_quick=1200, n_thorough=20000, valid=valid, floor=0.3),
         Leg("mirrored", evaluate, "hypothesis: inputs made of two value-identical halves (6-10 items) for the recursive / memoising algorithms "
